@@ -159,6 +159,27 @@ def check_full(ctx):
     ctx.expected_ok = True
 
 
+def check_full_exc(ctx):
+    from specs.C19 import install_exc
+    install_exc(ctx.eng)
+    ctx.eng.max_strlen = 64
+    w = ctx.sym("which", 32)
+    ctx.assume(z3.ULE(w, 2))
+    paths = ctx.run("k_cb_full_exc", [w])
+    for q in paths:
+        lg = q.user.get("log") or []
+        if q.status != "ret":
+            ctx.fail(q, "a function whose registration had been refused (table full) could not be registered after an entry point was released: %s %s" % (q.status, q.info))
+            continue
+        r14 = [e for e in lg if e[0] == 14]
+        r15 = [e for e in lg if e[0] == 15]
+        bodies = [(conc(e[1]), conc(e[2])) for e in lg if e[0] == 10]
+        ctx.require(q, z3.BoolVal(bool(r14) and conc(r14[0][1]) == 1 and conc(r14[0][2]) == 1 and bool(r15) and conc(r15[0][1]) == 0 and bodies == [(64, 9)]),
+                    "the refused registration raised, left an inert owner, and the function is registrable and reachable afterwards")
+    ctx.only(paths, "ret")
+    ctx.expect(paths, ret=3)
+
+
 def check_full_reuse(ctx):
     ctx.eng.max_strlen = 64
     w = ctx.sym("which", 32)
@@ -220,6 +241,8 @@ def jobs(tier, seed):
     out.append(Job("C13_full", fsrc, [dict(name="65th registration", fn=check_full, unwind=400)], native=False))
     out.append(Job("C13_recreate", fsrc, [dict(name="noop second incarnation", fn=check_recreate, unwind=400)], native=False))
     out.append(Job("C13_dylib_recreate", DYLIB + '#include "C13_full.inc"\n', [dict(name="dylib second incarnation", fn=check_recreate, unwind=400)], native=False,
+                   flags=["-D_GLIBCXX_EXTERN_TEMPLATE=0"]))
+    out.append(Job("C13_full_exc", NOOP + '#include "C13_full_exc.inc"\n', [dict(name="refused registration leaves no trace (exceptions)", fn=check_full_exc, unwind=400)], native=False,
                    flags=["-D_GLIBCXX_EXTERN_TEMPLATE=0"]))
     out.append(Job("C13_full_reuse", fsrc, [dict(name="registration after release on a full table", fn=check_full_reuse, unwind=400)], native=False))
     return out
